@@ -14,6 +14,7 @@ func init() {
 		ID: "C10",
 		Rules: []Rule{
 			{"A", "every decimal accumulation step x*10+d (discovered on SSA) is wrap-free: interval analysis over ideal integers with byte-set digit ranges and dominating guards, or an A2 pre-check x > (MAX-d)/10, or an A1 widened check of the same cells that dominates the step", ruleA},
+			{"AR", "number/field pairing for the URI port: in the extracted ParseURI automaton, every entry into a state that accumulates port digits happens with the accumulator at 0 (reachability over state x {zero, non-zero})", ruleAR},
 			{"W", "every other +,-,*,<< on an accumulator-derived value (q scaling, combined range expressions) is wrap-free at the point where it is computed", ruleW},
 			{"R", "documented ranges not implied by a type width: Content-Length <= 9 digits and <= 2^24 on its success path, the limit constants, contact expires saturating at the constant 2^32-1, q with more than three decimals flagged", ruleR},
 			{"N", "every narrowing integer conversion outside init has an operand whose range (intervals + dominating guards) fits the target type; conversions to OffsT are the documented 65,535 limit", ruleN},
@@ -302,4 +303,63 @@ func ruleRWho(c *Ctx) {
 		}
 	}
 	c.check(n >= 2, "R", "clen-parser:count", token.NoPos, fmt.Sprintf("%d parse calls on the Content-Length body found (frozen minimum 2)", n))
+}
+
+// ruleAR: the port accumulator is 0 whenever a state that accumulates port digits is entered
+// (abstract interpretation of the extracted ParseURI automaton x {portNo==0, portNo!=0}).
+func ruleAR(c *Ctx) {
+	r := fsmOf(c, "ParseURI")
+	if r == nil || r.head == nil || r.capped {
+		c.fail("AR", "ParseURI:fsm", token.NoPos, "state machine could not be extracted")
+		return
+	}
+	g := r.grouped(r.trans)
+	// which states accumulate?
+	acc := map[int64]bool{}
+	for _, t := range g {
+		if v := t.Locals["portNo"]; strings.Contains(v, "10*portNo") {
+			acc[t.From] = true
+		}
+	}
+	c.check(len(acc) >= 2, "AR", "accumulating-states", token.NoPos, fmt.Sprintf("%d states accumulate port digits", len(acc)))
+	type cfg struct {
+		st   int64
+		zero bool
+	}
+	reach := map[cfg]bool{}
+	var work []cfg
+	for _, k := range r.states {
+		if strings.HasPrefix(r.name(k), "uInit") && r.name(k) != "uInit" {
+			work = append(work, cfg{k, true})
+			reach[cfg{k, true}] = true
+		}
+	}
+	bad := map[string]string{}
+	for len(work) > 0 {
+		cur := work[len(work)-1]
+		work = work[:len(work)-1]
+		for _, t := range g {
+			if t.From != cur.st || t.Exit != "" || t.To < 0 {
+				continue
+			}
+			z := cur.zero
+			switch v := t.Locals["portNo"]; {
+			case v == "+0":
+				z = true
+			case v == "=" || v == "":
+			default:
+				z = false
+			}
+			if t.To != t.From && acc[t.To] && !z {
+				bad[r.name(t.From)+"->"+r.name(t.To)+" on "+t.Bytes.String()] = "entered with a possibly non-zero accumulator"
+			}
+			n := cfg{t.To, z}
+			if !reach[n] {
+				reach[n] = true
+				work = append(work, n)
+			}
+		}
+	}
+	c.check(len(bad) == 0, "AR", "ParseURI:portNo-zero-on-entry", token.NoPos,
+		fmt.Sprintf("over the %d reachable (state, accumulator-is-zero) configurations, every entry into a digit-accumulating state happens with portNo == 0, so PortNo is the value of the digits of Port only %v", len(reach), bad))
 }
